@@ -153,7 +153,7 @@ fn small_draw_case(k: usize, stacked: bool) -> Case {
     Case { fault: None, capacity: k.to_string(), draws: vec!["3".into(), "1".into(), "2".into(), "3".into(), "1".into(), "3".into(), "2".into(), "1".into()], default_draw: "3".into(), writes: (0..6).map(|i| (i % 2 == 1, i)).collect(), stacked }
 }
 
-/// With every draw <= 3 every write must maintain (each draw is <= the decrement of any capacity).
+/// Extreme capacities with tiny draws: every write completes without error or panic.
 pub fn judge_small_draws(root: &Path, c: &Case) -> Result<(), (String, String)> {
     // reuse judge for panics/growth, then demand maintenance on every write after the first
     // (a fresh thread's first event consumes two draws and fires: all <= decrement)
@@ -183,8 +183,8 @@ pub fn judge_small_draws(root: &Path, c: &Case) -> Result<(), (String, String)> 
         rets
     });
     let rets = handle.join().map_err(|_| ("c10:panic".to_string(), "the writer thread panicked".to_string()))?;
-    let ev = world.take_events();
-    let dir_s = dir.to_string_lossy().into_owned();
+    let _ev = world.take_events();
+    let _dir_s = dir.to_string_lossy().into_owned();
     crate::shim::bypass(|| {
         let _ = std::fs::remove_dir_all(root.join("cache"));
         let _ = std::fs::remove_dir_all(root.join("staging"));
@@ -196,9 +196,12 @@ pub fn judge_small_draws(root: &Path, c: &Case) -> Result<(), (String, String)> 
         if r.is_err() {
             return Err(("c10:error".into(), format!("capacity {}: write #{} failed: {}", k, i, r.short())));
         }
-        if !ev.iter().any(|e| e.op == i as u32 && e.call == "opendir" && e.path == dir_s) {
-            return Err(("c10:small-draw-did-not-fire".into(), format!("capacity {}: write #{} did not maintain although every random draw is <= 3 (draws {:?})", k, i, c.draws)));
-        }
+        // (An earlier version also demanded that every one of these writes maintains, because the
+        // current trigger uses the raw draw as its countdown. C10 only bounds the gap by
+        // floor(k/3) writes, which is far beyond any history that can be run at these capacities:
+        // a trigger that maps draws to countdowns differently is just as correct. Only clean
+        // completion is demanded here; the window clause of `judge` covers every capacity whose
+        // period fits in the history.)
     }
     Ok(())
 }
@@ -280,7 +283,7 @@ pub fn run(ctx: &Ctx) -> Report {
             }
         }
     }
-    // huge capacities: nothing may overflow or panic, and small draws fire immediately
+    // huge capacities: nothing may overflow, fail or panic
     let huge: Vec<usize> = vec![1 << 16, 1 << 32, 1 << 62, 1usize << 63, usize::MAX / 3, usize::MAX / 3 + 1, usize::MAX / 2, usize::MAX - 2, usize::MAX - 1, usize::MAX];
     for (hi, k) in huge.iter().enumerate() {
         for stacked in [false, true] {
@@ -307,7 +310,7 @@ pub fn run(ctx: &Ctx) -> Report {
             let _ = hi;
         }
     }
-    // small capacities with small draws too (the clause holds for every capacity)
+    // small capacities with small draws too
     for k in [0usize, 1, 5, 6, 7, 30, 199] {
         idx += 1;
         if !ctx.mine(idx) {
